@@ -289,6 +289,30 @@ func execC15(r *run, c caseT) {
 	if po.obs == o.obs && (w.trim || w.lstrip) && !strings.Contains(src, "-") {
 		// the same through a history: compiled and executed with the options off, then the
 		// options are switched on for this template and it is executed again
+		// through the set's render shortcuts, the set's options switched on between two calls
+		{
+			set := pongo2.NewSet("c15hist", newMemLoader(map[string]string{"f.tpl": src}))
+			for route := 0; route < 3; route++ {
+				set.Options.TrimBlocks, set.Options.LStripBlocks = false, false
+				call := func() (string, error) {
+					switch route {
+					case 0:
+						return set.RenderTemplateString(src, ctx.goContext())
+					case 1:
+						return set.RenderTemplateBytes([]byte(src), ctx.goContext())
+					}
+					return set.RenderTemplateFile("f.tpl", ctx.goContext())
+				}
+				first, e1 := call()
+				set.Options.TrimBlocks, set.Options.LStripBlocks = w.trim, w.lstrip
+				second, e2 := call()
+				if e1 == nil && e2 == nil && obsOK(second) != o.obs {
+					r.reject(id, "block options switched on in the set between two renderings of the same source are not applied",
+						map[string]any{"source": src, "options": w.opts(), "route": []string{"RenderTemplateString", "RenderTemplateBytes", "RenderTemplateFile"}[route], "first": first, "second": second, "fresh": o.obs})
+					return
+				}
+			}
+		}
 		if tpl, err := pongo2.FromString(src); err == nil {
 			first, e1 := tpl.Execute(ctx.goContext())
 			tpl.Options.TrimBlocks, tpl.Options.LStripBlocks = w.trim, w.lstrip
